@@ -179,9 +179,30 @@ def expr_task(task):
     return n, out
 
 
+def ternary_cases():
+    """A ternary in every expression context: (label, line, code, whole file text)."""
+    from . import c01_expr as ce
+    tern = norm.V("n") + [norm.SP(), norm.P("tern", "?"), norm.SP()] + norm.C("1") + [norm.SP(), norm.P("colon", ":"), norm.SP()] + norm.C("0")
+    ttasks = []
+    for ctx in ce.CONTEXTS:
+        body = ce.body_for(ctx, tern)
+        ttasks.append((f"ternary@{ctx}", 18, "TERNARY_FBIDDEN", norm.render(norm.preamble(".c", "test.c")) + body))
+    hdrtxt = norm.render(norm.preamble(".c", "test.c"))
+    ttasks.append(("ternary@nested-call-arg", 18, "TERNARY_FBIDDEN", hdrtxt + ce.FUNC_HEAD + "\tft_f(ft_g(n ? 1 : 0), n);\n" + ce.FUNC_TAIL))
+    ttasks.append(("ternary@paren", 18, "TERNARY_FBIDDEN", hdrtxt + ce.FUNC_HEAD + "\tn = (n ? 1 : 0) + 1;\n" + ce.FUNC_TAIL))
+    ttasks.append(("ternary@static-init", 15, "TERNARY_FBIDDEN", hdrtxt + "int\tft_test(int n)\n{\n\tstatic int\tx = 1 ? 2 : 3;\n\n\treturn (n + x);\n}\n"))
+    ttasks.append(("ternary@global-init", 13, "TERNARY_FBIDDEN", hdrtxt + "static int\tg_x = 1 ? 2 : 3;\n\nint\tmain(void)\n{\n\treturn (g_x);\n}\n"))
+    ttasks.append(("ternary@define", 13, "TERNARY_FBIDDEN", hdrtxt + "#define LIMIT (1 ? 2 : 3)\n\nint\tmain(void)\n{\n\treturn (0);\n}\n"))
+    hh = norm.render(norm.preamble(".h", "test.h"))
+    ttasks.append(("ternary@enumerator", 18, "TERNARY_FBIDDEN", hh + "typedef enum e_mode\n{\n\tMODE_A = 1 ? 1 : 2,\n\tMODE_B,\n\tMODE_C\n}\tt_mode;\n"
+                   "\nint\t\tft_f(int n);\n\n#endif\n"))
+    ttasks.append(("ternary@header-define", 16, "TERNARY_FBIDDEN", hh + "# define LIMIT (1 ? 2 : 3)\n\nint\tft_f(int n);\n\n#endif\n"))
+    return ttasks
+
+
 def _wrapped_task(task):
     label, ln, code, text = task
-    r = impl.run_text("test.c", text)
+    r = impl.run_text("test.h" if "#ifndef TEST_H" in text else "test.c", text)
     if r.exc is not None:
         return "exception:" + r.exc[0]
     if not any(d[0] == "Error" and d[1] == code and d[2] == ln for d in r.diags):
@@ -250,24 +271,40 @@ def run(tier, seed):
     st.bump("expression_site_runs", ne)
     # a ternary in every expression context (V25 generalised): assignment, compound assignment, conditions, return,
     # both argument positions, index, nested call argument, declaration initialiser, global initialiser, #define value
-    from . import c01_expr as ce
-    tern = norm.V("n") + [norm.SP(), norm.P("tern", "?"), norm.SP()] + norm.C("1") + [norm.SP(), norm.P("colon", ":"), norm.SP()] + norm.C("0")
-    ttasks = []
-    for ctx in ce.CONTEXTS:
-        body = ce.body_for(ctx, tern)
-        ttasks.append((f"ternary@{ctx}", 18, "TERNARY_FBIDDEN", norm.render(norm.preamble(".c", "test.c")) + body))
-    hdrtxt = norm.render(norm.preamble(".c", "test.c"))
-    ttasks.append(("ternary@nested-call-arg", 18, "TERNARY_FBIDDEN", hdrtxt + ce.FUNC_HEAD + "\tft_f(ft_g(n ? 1 : 0), n);\n" + ce.FUNC_TAIL))
-    ttasks.append(("ternary@paren", 18, "TERNARY_FBIDDEN", hdrtxt + ce.FUNC_HEAD + "\tn = (n ? 1 : 0) + 1;\n" + ce.FUNC_TAIL))
-    ttasks.append(("ternary@static-init", 15, "TERNARY_FBIDDEN", hdrtxt + "int\tft_test(int n)\n{\n\tstatic int\tx = 1 ? 2 : 3;\n\n\treturn (n + x);\n}\n"))
-    ttasks.append(("ternary@global-init", 13, "TERNARY_FBIDDEN", hdrtxt + "static int\tg_x = 1 ? 2 : 3;\n\nint\tmain(void)\n{\n\treturn (g_x);\n}\n"))
-    ttasks.append(("ternary@define", 13, "TERNARY_FBIDDEN", hdrtxt + "#define LIMIT (1 ? 2 : 3)\n\nint\tmain(void)\n{\n\treturn (0);\n}\n"))
+    ttasks = ternary_cases()
     tres = explore.pmap(_wrapped_task, ttasks, chunksize=2)
     st.runs += len(ttasks)
     st.bump("ternary_context_runs", len(ttasks))
     for (label, ln, code, text), prob in zip(ttasks, tres):
         if prob:
             failures.append(Failure("C02", f"V25:{code}:{prob}:{label}", f"a ternary in context {label.split('@')[1]}: {prob}",
+                                    {"kind": "wrapped", "text": text, "code": code, "line": ln}))
+    # V28 generalised: every parameter shape (scalar, pointer, array, const, function pointer) at every position of a
+    # prototype loses its name
+    PARAMS = [("int ", "n", ""), ("char *", "s", ""), ("const char **", "tab", ""), ("char ", "buf", "[]"), ("t_list *", "lst", ""),
+              ("int (*", "cmp", ")(int, int)"), ("void (*", "fn", ")(char *)"), ("unsigned int ", "count", "")]
+    hdrtxt = norm.render(norm.preamble(".c", "test.c"))
+    ptasks = []
+    for i, a in enumerate(PARAMS):
+        for j, b_ in enumerate(PARAMS):
+            if i == j:
+                continue
+            for c_ in (None, PARAMS[(i + j) % len(PARAMS)]):
+                ps = [a, b_] + ([c_] if c_ and c_ not in (a, b_) else [])
+                full = ", ".join(x[0] + x[1] + x[2] for x in ps)
+                for k in range(len(ps)):
+                    dropped = ", ".join((x[0].rstrip(" ") if (m == k and x[0].endswith(" ")) else x[0]) + ("" if m == k else x[1]) + x[2]
+                                        for m, x in enumerate(ps))
+                    text = hdrtxt + f"int\tft_subject({dropped});\n\nint\tmain(void)\n{{\n\treturn (0);\n}}\n"
+                    if len(f"int\tft_subject({full});") + 3 <= 80:
+                        ptasks.append((f"unnamed:{ps[k][0].strip()}{ps[k][2]}@{k + 1}of{len(ps)}:after={ps[k - 1][0].strip() + ps[k - 1][2] if k else 'none'}",
+                                       13, "MISSING_IDENTIFIER", text))
+    pres = explore.pmap(_wrapped_task, ptasks, chunksize=8)
+    st.runs += len(ptasks)
+    st.bump("unnamed_parameter_runs", len(ptasks))
+    for (label, ln, code, text), prob in zip(ptasks, pres):
+        if prob:
+            failures.append(Failure("C02", f"V28:{code}:{prob}:{label}", f"prototype parameter without a name ({label}): {prob}",
                                     {"kind": "wrapped", "text": text, "code": code, "line": ln}))
     # statements spanning two physical lines (wrapped condition, call, return, assignment, signature, prototype):
     # a trailing blank on each physical line
